@@ -332,3 +332,75 @@ SCENARIOS = [
     Scenario("C17.prepare_inputs", s_prepare_inputs, [("onnxscript/_internal/values.py", "Opset._prepare_inputs")],
              kind="bounded", bound="up to 5 inputs, each None or a value (all 63 None-patterns)"),
 ]
+
+
+def s_opset_dynamic_lookup(ctx):
+    """Opset.__getitem__ / __contains__ / __getattr__ (dynamic schema lookup): all three ask the registry for exactly
+    (opname, THIS opset's version, THIS opset's domain); an existing schema gives Op(self, opname, schema) / True, a
+    missing one None / False / AttributeError — never another exception, never the schema of another version."""
+    import onnx
+    import z3
+    from pyvc.harness import Scenario as _S  # noqa: F401
+    from pyvc.interp import Interp, PyRaise
+    from pyvc.values import SObj, SStr, SInt, StrSort, term
+    from onnxscript._internal import values
+    I = Interp(ctx)
+    name = z3.String("opname")
+    dom = z3.String("domain")
+    ver = ctx.int("version")
+    for k, t in (("opname", name), ("domain", dom), ("version", ver)):
+        ctx.witness[k] = t
+    ops = SObj(values.Opset, "opset")
+    ops.fields.update(domain=SStr(dom), version=SInt(ver))
+    exists = ctx.choose(2, "the registry has a schema for the request") == 0
+    calls = []
+
+    class Schema:
+        pass
+    schema = Schema()
+
+    def m_get_schema(interp, *a, **k):
+        calls.append((a, k))
+        if exists:
+            return schema
+        raise PyRaise(onnx.defs.SchemaError("No schema registered"))
+    I.models[onnx.defs.get_schema] = m_get_schema
+    made = []
+    I.models[values.Op] = lambda interp, opset, nm, sch=None, *a: (made.append((opset, nm, sch)) or ("Op", len(made)))
+    which = ["__getitem__", "__contains__", "__getattr__"][ctx.choose(3, "lookup form")]
+    raised = None
+    try:
+        r = I.run_closure(I.closure_of(getattr(values.Opset, which)), [ops, SStr(name)], {})
+    except PyRaise as e:
+        raised, r = e.exc, None
+
+    def same_request():
+        if len(calls) != 1:
+            return z3.BoolVal(False)
+        a, k = calls[0]
+        args = dict(zip(("op_type", "max_inclusive_version", "domain"), a))
+        args.update(k)
+        try:
+            return z3.And(term(args["op_type"]) == name, term(args["max_inclusive_version"]) == ver, term(args["domain"]) == dom)
+        except Exception:  # noqa: BLE001
+            return z3.BoolVal(False)
+    ctx.check(f"C17.opset.{which}.asks_the_registry_for_this_name_version_and_domain", same_request(),
+              "C17: 'every generated opset class ... resolves the operator schema of exactly that (domain, name, since_version)'")
+    if which == "__contains__":
+        ctx.check("C17.opset.__contains__.true_iff_the_schema_exists", raised is None and r is exists, "C17")
+    elif which == "__getitem__":
+        ctx.check("C17.opset.__getitem__.op_of_this_opset_or_None", raised is None and ((r == ("Op", 1) and made == [(ops, made[0][1], schema)] and
+                  z3.is_true(z3.simplify(term(made[0][1]) == name))) if exists else (r is None and not made)), "C17")
+    else:
+        if exists:
+            ctx.check("C17.opset.__getattr__.op_of_this_opset_with_the_schema", raised is None and r == ("Op", 1) and made[0][0] is ops and made[0][2] is schema, "C17")
+        else:
+            ctx.check("C17.opset.__getattr__.missing_operator_is_an_AttributeError", isinstance(raised, AttributeError),
+                      "C17: hasattr(opset, name) / getattr with default must work — only AttributeError may escape __getattr__")
+
+
+from pyvc.harness import Scenario as _Scenario
+SCENARIOS.append(_Scenario("C17.opset.dynamic_lookup", s_opset_dynamic_lookup,
+                           [("onnxscript/_internal/values.py", "Opset.__getitem__"), ("onnxscript/_internal/values.py", "Opset.__contains__"),
+                            ("onnxscript/_internal/values.py", "Opset.__getattr__")],
+                           trusted=["onnx.defs.get_schema(op_type, max_inclusive_version, domain) (onnx)"]))
